@@ -135,6 +135,21 @@ def raw_user_parts(term):
     return out
 
 
+def check_lossless_encoding(A, R, rid, K):
+    """The bytes that are hashed are a lossless (strict) encoding of the key text (shared with C01 / C13)."""
+    t = K.KEY
+    if t[0] == 'slice':
+        t = t[1]
+    if not (t[0] == 'method' and t[2] == 'hexdigest' and t[1][0] == 'call'):
+        R.undecided(rid, 'TaskParameterConfig.get_name_for_persistence: encoding', 'digest construction not recognised', where=where(K.f_key))
+        return
+    # what is hashed is the text itself: a lossless encoding (the default, strict utf-8) - `errors='replace' / 'ignore'` maps different texts to the same bytes
+    encs = [x for x in dag_nodes(t[1]) if x[0] == 'call' and x[1] == 'encode']
+    lossy = [x for x in encs if len(x[2]) != 1]
+    R.check(bool(encs) and not lossy, rid, 'TaskParameterConfig.get_name_for_persistence: encoding', key_of('encode', [pretty(x)[-60:] for x in lossy] or len(encs)), 'text encoded losslessly (strict utf-8)',
+            f'the hashed bytes are `{pretty(lossy[0])[-80:] if lossy else "not an encoding of the text"}`: characters that cannot be encoded are replaced / dropped, so parameter values differing only there share a key', where=where(K.f_key))
+
+
 def run(A, R: Report, thorough: bool):
     R.explanation = ('Injection-style lint over the symbolic term of the hashed text: which holes are spliced between literal delimiters without an injective escaper, whether '
                      'containers are traversed completely, which digest and how many digits. Injectivity of a text format is a property of its grammar and holds for all values at once. '
@@ -210,11 +225,7 @@ def run(A, R: Report, thorough: bool):
     algo = None
     if t[0] == 'method' and t[2] == 'hexdigest' and t[1][0] == 'call':
         algo = t[1][1].split('.')[-1]
-        # what is hashed is the text itself: a lossless encoding (the default, strict utf-8) - `errors='replace' / 'ignore'` maps different texts to the same bytes
-        encs = [x for x in dag_nodes(t[1]) if x[0] == 'call' and x[1] == 'encode']
-        lossy = [x for x in encs if len(x[2]) != 1]
-        R.check(bool(encs) and not lossy, 'R03.3', 'TaskParameterConfig.get_name_for_persistence: encoding', key_of('encode', [pretty(x)[-60:] for x in lossy] or len(encs)), 'text encoded losslessly (strict utf-8)',
-                f'the hashed bytes are `{pretty(lossy[0])[-80:] if lossy else "not an encoding of the text"}`: characters that cannot be encoded are replaced / dropped, so parameter values differing only there share a key', where=where(K.f_key))
+        check_lossless_encoding(A, R, 'R03.3', K)
     if algo is None:
         R.undecided('R03.3', 'TaskParameterConfig.get_name_for_persistence', f'digest construction not recognised: {pretty(t)[:80]}', where=where(K.f_key))
     else:
@@ -287,6 +298,14 @@ def run(A, R: Report, thorough: bool):
         R.check(not other, 'R03.9', 'AutoParameterObject.repr: skipped arguments', key_of('apo-other-skip', other), f'{len(conj_)} skip condition(s), all documented',
                 f'an __init__ argument is also left out of the rendering when `{other[0] if other else ""}` fails: objects differing only in such an argument (e.g. values passed through **kwargs) get one repr and share storage',
                 where=where(K.f_apo))
+
+    # ---- R03.10 / R03.11 shared structural conditions of the key
+    from .c02 import check_default_exemption
+    R.rule('R03.10', 'a parameter is left out of the key for its default only when its typed value equals the declared default (never by comparing renderings)', floor=1)
+    check_default_exemption(A, R, 'R03.10', K)
+    from .c01 import check_input_map
+    R.rule('R03.11', 'every Task-valued input of a task contributes its own key to the task\'s key (also inputs that are not persisted themselves)', floor=1)
+    check_input_map(A, R, 'R03.11', K)
 
     from .purity import check_key_stateless
     check_key_stateless(A, R, 'R03.7')
